@@ -148,6 +148,10 @@ def roundtrip_case(ctx, seed, real_file=False, charset='latin1'):
     fmt, div, tracks = genfile.rand_file_events(rng, EOT_MODES)
     case = lambda: {'kind': 'roundtrip', 'seed': seed, 'real_file': real_file, 'charset': charset}  # noqa: E731
     mid = genfile.midifile_of(fmt, div, tracks, charset)
+    frozen = rng.random() < 0.2
+    if frozen:
+        from .. import abuse
+        abuse.freeze_tracks(mid)          # immutable messages in the tracks: the same file
     try:
         b = save_bytes(mid, real_file)
     except Exception as exc:
@@ -187,14 +191,23 @@ def roundtrip_case(ctx, seed, real_file=False, charset='latin1'):
     # saving must not have modified the in-memory file
     for ti, evs in enumerate(tracks):
         orig = [genfile.msg_of_event(e, charset) for e in evs]
-        ctx.check('save leaves the file unmodified', same_msgs(list(mid.tracks[ti]), orig),
+        now = list(mid.tracks[ti])
+        if frozen:
+            import mido.frozen as fz
+            ctx.check('save leaves the file unmodified', all(isinstance(m, fz.Frozen) for m in now), 'save-replaced-frozen-messages',
+                      case, lambda: {'track': ti})
+            now = [fz.thaw_message(m) for m in now]
+        ctx.check('save leaves the file unmodified', same_msgs(now, orig),
                   'save-mutated-input', case, lambda: {'track': ti})
     # edit one message and save again: the new bytes must reflect the edit
     cand = [(ti, mi) for ti, tr in enumerate(mid.tracks) for mi, m in enumerate(tr)]
     if cand:
         ti, mi = rng.choice(cand)
         m = mid.tracks[ti][mi]
-        m.time = m.time + 1
+        if frozen:
+            m = mid.tracks[ti][mi] = m.copy(time=m.time + 1)      # immutable: the edit replaces the message
+        else:
+            m.time = m.time + 1
         try:
             back2 = load_bytes(save_bytes(mid))
             evs2 = list(tracks[ti])
